@@ -1,6 +1,7 @@
 #!/usr/bin/env python3
 """runvariant.py <variant id>...: apply a selftest variant to /repo in place, run its property's check, revert."""
 import json, subprocess, sys
+import os as _os; _os.environ["VERIF_NO_EVIDENCE"] = "1"   # never let a run against a modified tree rewrite evidence/
 V = {v["id"]: v for v in json.load(open("/verif/selftest/variants.json"))}
 for vid in sys.argv[1:]:
     v = V[vid]
